@@ -315,8 +315,12 @@ func TestC18(t *testing.T) {
 		b := byte(33 + i/4)
 		flagsN := int(i%4) << 8
 		alpha := []string{bs(b), bs(closeByte(b)), "'", "a"}
+
 		if closeByte(b) == b {
 			alpha = []string{bs(b), "'", "a", "\\"}
+		}
+		if b >= 0x80 {
+			alpha = []string{bs(b), "'", "a", "\xc3", "\xe2\x82"} // a UTF-8 lead byte directly in front of the closing delimiter
 		}
 		var rec func(prefix string, depth int)
 		rec = func(prefix string, depth int) {
